@@ -80,8 +80,13 @@ impl Gen {
                 4 if d > 0 => {
                     // bounded REPEAT on usint2
                     let lim = self.rng.gen_range(0..4);
-                    let mut b = self.block(d - 1, true);
-                    b.push(json!({"k": "assign", "n": "usint2", "e": {"k": "bin", "op": "add", "l": {"k": "var", "n": "usint2", "t": "USINT"}, "r": {"k": "lit", "t": "USINT", "v": 1}}}));
+                    // the counter moves FIRST, so that a CONTINUE in the rest of the body can fire on the very
+                    // iteration on which UNTIL becomes true (UNTIL must still be evaluated)
+                    let mut b = vec![json!({"k": "assign", "n": "usint2", "e": {"k": "bin", "op": "add", "l": {"k": "var", "n": "usint2", "t": "USINT"}, "r": {"k": "lit", "t": "USINT", "v": 1}}})];
+                    if self.rng.gen_bool(0.5) {
+                        b.push(json!({"k": "if", "c": self.expr("BOOL", 1), "t": [{"k": "continue"}], "e": []}));
+                    }
+                    b.extend(self.block(d - 1, true));
                     return json!({"k": "repeat", "body": b, "c": {"k": "bin", "op": "gt", "l": {"k": "var", "n": "usint2", "t": "USINT"}, "r": {"k": "lit", "t": "USINT", "v": lim}}});
                 }
                 5 if in_loop => return json!({"k": "if", "c": self.expr("BOOL", 1), "t": [{"k": "continue"}], "e": []}),
@@ -256,7 +261,10 @@ fn asg(n: &str, e: J) -> J { json!({"k": "assign", "n": n, "e": e}) }
 /// FUNCTION / FUNCTION_BLOCK definitions: template bodies with seeded constants.
 fn pou_defs(rng: &mut StdRng) -> (J, J, String) {
     let k = rng.gen_range(0..6i64);
-    let f1_body = match rng.gen_range(0..4) {
+    let f1_body = match rng.gen_range(0..5) {
+        4 => vec![json!({"k": "repeat", "body": [asg("t", bin("add", var_i("t"), lit_i(1))),
+                    {"k": "if", "c": bin("ge", var_i("t"), lit_i(k.min(3))), "t": [{"k": "continue"}], "e": []}, asg("c", bin("add", var_i("c"), var_i("t")))],
+                    "c": bin("ge", var_i("t"), var_i("b"))}), asg("f1", bin("add", var_i("c"), var_i("t")))],
         0 => vec![asg("t", bin("add", var_i("a"), var_i("b"))), asg("c", bin("add", var_i("c"), lit_i(1))),
                   json!({"k": "if", "c": bin("gt", var_i("t"), lit_i(k)), "t": [asg("f1", var_i("t")), {"k": "return"}], "e": []}),
                   asg("f1", bin("mul", var_i("t"), lit_i(2)))],
@@ -307,7 +315,8 @@ pub fn gen(args: &[String]) -> i32 {
         return gen_matrix(args);
     }
     let natural = arg(args, "--profile") == Some("natural");
-    let pous = arg(args, "--profile") == Some("pous");
+    let case_variant = arg(args, "--profile") == Some("case");
+    let pous = arg(args, "--profile") == Some("pous") || case_variant;
     let mut g = Gen { rng: StdRng::seed_from_u64(seed ^ if natural { 0x4a7 } else { 0x57c }), typed_lits: !natural, strict: !natural, pous };
     let mut o = Out::create(arg(args, "--out").expect("--out"));
     for _ in 0..runs {
@@ -342,6 +351,13 @@ pub fn gen(args: &[String]) -> i32 {
         let body = g.block(2, false);
         stmts_src(&body, true, 0, &mut src);
         src.push_str("END_PROGRAM\n");
+        if case_variant {
+            // identifiers are case-insensitive: spell every occurrence in the body differently from its declaration
+            let at = src.rfind("END_VAR\n").unwrap() + 8;
+            let upper = src[at..].to_ascii_uppercase();
+            src.truncate(at);
+            src.push_str(&upper);
+        }
         let mut drift = std::collections::BTreeSet::new();
         loop {
             if pous {
@@ -364,7 +380,7 @@ pub fn gen(args: &[String]) -> i32 {
             }
             inputs.push(sets);
         }
-        o.line(&json!({"profile": if natural { "natural" } else if pous { "pous" } else { "strict" }, "funcs": funcs, "fbs": fbs, "decl": decl, "init": init, "body": body, "src": src,
+        o.line(&json!({"profile": if natural { "natural" } else if case_variant { "case" } else if pous { "pous" } else { "strict" }, "funcs": funcs, "fbs": fbs, "decl": decl, "init": init, "body": body, "src": src,
                        "drift": drift.into_iter().collect::<Vec<_>>(), "inputs": inputs}));
     }
     o.flush();
